@@ -243,6 +243,10 @@ def main():
             log("BUILD-FAILURE: cannot import staged gtirb / harness %s: %r" % (hmod, e))
             return 2
         shards = H.shards(tier)
+        if tier == "quick":
+            # quick tier: no shard may run longer than 7 minutes (a changed tree can make every shard slow)
+            for s_ in shards:
+                s_["timeout"] = min(float(s_.get("timeout", 300)), 420.0)
         if a.only:
             shards = [s for s in shards if a.only in shard_name(s)]
         shards.sort(key=lambda s: -float(s.get("timeout", 300)))
